@@ -53,7 +53,7 @@ def jobs(tier, seed):
 LEVEL_TEXT = ('Bounded symbolic verification by self-composition: the real setup() and solve() (with the real cycles) run on two object states that differ only in arbitrary, symbolic '
               'leftovers of earlier solves; every pair of paths through the two convergence loops is followed and the solver proves that solution, iteration count, reduction factor '
               'and error figures are equal for ALL right-hand sides, tolerances and leftovers, and that the reported statistics do not depend on leftover values. Right level: '
-              '"for every history" is covered by one step from an arbitrary leftover state instead of enumerating histories.')
+              '"for every history" is covered by one step from an arbitrary leftover state instead of enumerating histories. A second setup() on a used object (other grid size, extrapolation, strategy, boundary mode) is compared with a fresh object: number of levels, level grids, solution, iteration count.')
 LEVEL_NOTE = '9x8/5x4 hierarchy, <= 2 iterations; leftover state over-approximates real histories (counterexamples are confirmed by native replay from that state); exact arithmetic'
 TECHNIQUE = 'symbolic execution of LLVM IR (llsym), self-composition of two solver states with path forking + SMT (z3 QF_NRA / cvc5 QF_LRA)'
 DESIGN_REF = 'DESIGN.md section 6/C13'
